@@ -52,6 +52,8 @@ def Loc(r, f, e): return T("Loc", int(r), f, e)
 def Glob(f, *es): return T("Glob", f, tuple(es))
 def Erode(r, m): return T("Erode", int(r), m)
 def ErodeP(r, m): return T("ErodeP", int(r), m)
+def ErodeS(s, m): return T("ErodeS", int(s), m)     # punctured erosion by the abstract structure s
+def LocS(s, f, e): return T("LocS", int(s), f, e)   # reads e at p and at p + d, d in structure s
 def Select(a, m, b): return T("Select", a, m, b)
 def MConv(k, e, m): return T("MConv", k, e, m)
 def Not(m): return T("Not", m)                    # internal: eliminated when used as a selector
@@ -59,7 +61,9 @@ def Gather(x, m): return T("Gather", x, m)        # internal: x[m], m boolean; l
 def Crop(key, x): return T("Crop", key, x)        # internal: x[slices]
 def SetSlice(key, x, y): return T("SetSlice", key, x, y)   # internal: x with x[slices] := y
 def Seq(*ts): return T("Seq", tuple(ts))          # internal: python tuple/list of arrays
-def Slices(key): return T("Slices", key)          # internal: a tuple of slice objects with constant bounds
+def Slices(key): return T("Slices", key)
+def Carry(name): return T("Carry", name)          # internal: value of a loop-carried variable at the start of an iteration
+def Stack(*ts): return T("Stack", tuple(ts))      # internal: a 3-d stack whose planes are image-shaped (pointwise in p)          # internal: a tuple of slice objects with constant bounds
 
 
 def And(m1, m2):
@@ -76,7 +80,7 @@ def is_masklike(t):
     k = t[0]
     if k == "MaskE":
         return True
-    if k in ("Erode", "ErodeP", "Not"):
+    if k in ("Erode", "ErodeP", "ErodeS", "Not"):
         return is_masklike(t[-1])
     if k == "Select" and t[3] == FalseC:
         return is_masklike(t[1]) or is_masklike(t[2])
@@ -123,8 +127,10 @@ def fold(t):
         return Const(t[1] + "(..)")
     if k == "Loc" and is_const(t[3]):
         return Const(t[2] + "(..)")
-    if k in ("Erode", "ErodeP") and is_const(t[2]):
+    if k in ("Erode", "ErodeP", "ErodeS") and is_const(t[2]):
         return Const("erode(..)")
+    if k == "LocS" and is_const(t[3]):
+        return Const(t[2] + "(..)")
     if k == "Not":
         if is_const(t[1]):
             return Const("not(..)")
@@ -436,7 +442,7 @@ class Interp:
         """shape/size/dtype of a term: image-shaped terms have the (constant) image shape; the length of a gathered
         vector depends on its selector; anything else is an opaque function of the term"""
         k = t[0]
-        if k in ("Img", "MaskE", "Pw", "Loc", "Erode", "ErodeP", "Select", "Not", "MConv"):
+        if k in ("Img", "MaskE", "Pw", "Loc", "LocS", "Erode", "ErodeP", "ErodeS", "Select", "Not", "MConv"):
             if k == "Pw" and any(x[0] in ("Gather", "Glob") for x in t[2]):
                 return Glob("shape_of", t)
             return Const(".shape")
@@ -561,6 +567,9 @@ class Interp:
             # _cpmorphology2.pyx: output = zeros; output[i-1, j-1] = orig_image[i-1, j-1]
             idx = [a for a in args[1:] if not is_const(a)]
             return Select(args[0], Glob("index_set", *idx), Const("zeros"))
+        if f in ("max", "min", "sum", "mean") and len(args) == 1 and args[0][0] == "Stack" and list(kws) == ["axis"] \
+                and isinstance(n.keywords[0].value, ast.Constant) and n.keywords[0].value.value == 0:
+            return Pw(f + "_axis0", *args[0][1])              # reduction over the planes: pointwise in p
         if f == "logical_and" and len(args) == 2 and not kws:
             return And(args[0], args[1])
         if f == "logical_not" and len(args) == 1:
@@ -775,8 +784,17 @@ class Interp:
         arr = [t for t in idx if not is_const(t)]
         if len(idx) == 1 and arr and is_boolish(idx[0]):
             return fold(self.masked_write(cur, idx[0], v, aug))
+        if (len(elts) == 3 and not arr and aug is None and not isinstance(elts[0], ast.Slice)
+                and all(isinstance(e, ast.Slice) and e.lower is None and e.upper is None and e.step is None
+                        for e in elts[1:]) and self.image_shaped(v)):
+            return Stack(*[t for t in (cur, v) if not is_const(t)])      # x[k, :, :] = image-shaped v: one plane of a stack
         parts = [t for t in [cur] + arr + [v] if not is_const(t)]
         return Glob("indexed_store", *parts) if parts else Const("store")
+
+    @staticmethod
+    def image_shaped(t):
+        return t[0] in ("Img", "MaskE", "Pw", "Loc", "LocS", "Erode", "ErodeP", "ErodeS", "Select", "Not", "MConv", "Crop") \
+            and not (t[0] == "Pw" and any(x[0] in ("Gather", "Glob", "Stack") for x in t[2]))
 
     def masked_write(self, cur, sel, v, aug):
         """cur[sel] = v  /  cur[sel] op= v   for a boolean selector array"""
@@ -789,6 +807,9 @@ class Interp:
                 vs, vn = vs[1], not vn
             if vs == sel and vn == neg:
                 v = v[1]                                      # x[sel] = y[sel]
+                if not neg and sel[0] == "Crop" and v[0] == "Crop" and v[1] == sel[1] and not is_const(v[2]):
+                    # y[k][m[k]] is used only where m[k] holds: there y[k] == where(m, y, 0)[k]
+                    v = Crop(v[1], Select(v[2], sel[2], FalseC))
             else:
                 v = Glob("scatter", v, sel)
         elif v[0] == "Pw" and aug is None and all(x[0] == "Gather" and self._same_sel(x[2], sel, neg) or is_const(x)
@@ -859,6 +880,8 @@ class Interp:
                         and f not in self.m.funcs and f not in POINTWISE and f not in ("range", "len", "int", "float", "min", "max", "zip",
                                                             "enumerate", "slice", "extract_from_image_lookup"):
                     raise Unsupported("unknown call %s inside a loop" % f)
+        if self.refined_loop(st, env, written):
+            return
         deps = []
         for r in read:
             t = env.get(r)
@@ -868,6 +891,93 @@ class Interp:
                         deps.append(x)
         for w in written:
             env[w] = Glob("loop:" + w, *deps) if deps else Const("loop:" + w)
+
+    def refined_loop(self, st, env, written):
+        """One symbolic iteration with the loop-carried variables as placeholders.  The final value of every written
+        variable is a pure function of (a) the entry values of the carried variables and (b) the values, over all
+        iterations, of the maximal carry-free sub-terms E_j of the iteration's terms (their instances differ only in
+        image-independent constants, which the checker ignores).  When every path from a carried placeholder to the
+        root is pointwise (Pw / Select / plane of a stack) the function is pointwise in p as well.
+        Returns False (caller falls back to the coarse abstraction) when the body cannot be evaluated this way."""
+        if any(isinstance(c, (ast.Break, ast.Continue)) for c in ast.walk(st)) or st.orelse:
+            return False
+        e2 = dict(env)
+        targets = []
+        if isinstance(st, ast.For):
+            if not is_const(self.ev(st.iter, env)):
+                return False
+            for c in ast.walk(st.target):
+                if isinstance(c, ast.Name):
+                    targets.append(c.id)
+        carried = [w for w in written if w not in targets]
+        for w in carried:
+            e2[w] = Carry(w)
+        for t in targets:
+            e2[t] = Const("loopvar:" + t)
+        try:
+            extra = [self.ev(st.test, e2)] if isinstance(st, ast.While) else []
+            if self.block(st.body, e2) is not None:
+                return False
+        except Unsupported:
+            return False
+        terms = {w: e2[w] for w in carried if e2.get(w) is not None and e2[w] != Carry(w)}
+        memo = {}
+
+        def kids(t):
+            out = []
+            for x in t[1:]:
+                if isinstance(x, T):
+                    out.append(x)
+                elif isinstance(x, tuple):
+                    out.extend(y for y in x if isinstance(y, T))
+            return out
+
+        def has_carry(t):
+            r = memo.get(t)
+            if r is None:
+                r = memo[t] = (t[0] == "Carry") or any(has_carry(c) for c in kids(t))
+            return r
+
+        E = []
+
+        def collect(t):
+            if not has_carry(t):
+                if not is_const(t) and t not in E:
+                    E.append(t)
+                return
+            for c in kids(t):
+                collect(c)
+
+        def pointwise(t):
+            if not has_carry(t) or t[0] == "Carry":
+                return True
+            if t[0] in ("Pw", "Stack", "Select", "Not"):
+                return all(pointwise(c) for c in kids(t))
+            return False
+
+        for t in list(terms.values()) + extra:
+            if t[0] == "Seq":
+                return False
+            collect(t)
+        if any(x[0] in ("Seq", "Slices") for x in E):
+            return False
+        entries = [env[w] for w in carried if w in env and not is_const(env[w]) and env[w][0] != "Seq"]
+        pw_all = all(pointwise(t) for t in terms.values()) and not extra
+        for w in carried:
+            if w not in terms:
+                if w not in env:
+                    env[w] = Const("loop:" + w)
+                continue
+            parts = entries + E
+            if not parts:
+                env[w] = Const("loop:" + w)
+            elif pw_all and all(self.image_shaped(x) or x[0] == "Stack" for x in parts):
+                env[w] = Stack(*parts) if terms[w][0] == "Stack" else Pw("loop:" + w, *parts)
+            else:
+                env[w] = Glob("loop:" + w, *[x for y in parts for x in (y[1] if y[0] == "Stack" else [y])])
+        for t in targets:
+            env[t] = Const("loopvar:" + t)
+        return True
 
 
 def translate(module, name, image_param=None, callables=()):
@@ -903,6 +1013,10 @@ def _lower(t):
         return t
     if k == "Not":
         return Pw("not", lower(t[1]))
+    if k == "Stack":
+        return Pw("stack_planes", *[lower(x) for x in t[1]])
+    if k == "Carry":
+        raise Unsupported("loop-carried placeholder escaped")
     if k == "Gather":
         x, m = lower(t[1]), lower_sel(t[2])
         return Glob("gather", Select(x, m[0], FalseC) if not m[1] else Select(FalseC, m[0], x), m[0])
@@ -910,8 +1024,10 @@ def _lower(t):
         return Glob("crop" + t[1], lower(t[2]))
     if k == "SetSlice":
         return Glob("setslice" + t[1], lower(t[2]), lower(t[3]))
-    if k in ("Erode", "ErodeP"):
+    if k in ("Erode", "ErodeP", "ErodeS"):
         return T(k, t[1], lower(t[2]))
+    if k == "LocS":
+        return T("LocS", t[1], t[2], lower(t[3]))
     if k in ("Pw", "Glob"):
         return T(k, t[1], tuple(lower(x) for x in t[2]))
     if k == "Loc":
@@ -933,15 +1049,14 @@ def lower_sel(m):
 
 
 class Emitter:
-    """Coq text of terms; sub-terms that occur repeatedly are emitted once as `Definition sh_k` (the term denoted is
-    the same tree; only the text is shared)."""
+    """Coq text of programs.  A term is a DAG; every node that has more than one parent becomes a shared definition of
+    the program (`Ref k`), except on the spine of the main term (the Select nodes reached from the root through
+    then/else branches), which the restore checker inspects."""
 
     def __init__(self):
         self.syms = {}
         self.consts = {}
-        self.memo = {}
         self.size = {}
-        self.defs = []
 
     def sym(self, name):
         return self.syms.setdefault(name, len(self.syms))
@@ -952,63 +1067,87 @@ class Emitter:
     def tsize(self, t):
         r = self.size.get(t)
         if r is None:
-            k = t[0]
-            if k in ("Img", "MaskE", "FalseC", "Const"):
-                r = 1
-            elif k in ("Pw", "Glob"):
-                r = 1 + sum(self.tsize(x) for x in t[2])
-            else:
-                r = 1 + sum(self.tsize(x) for x in t[1:] if isinstance(x, tuple))
+            r = 1 + sum(self.tsize(x) for x in self.children(t))
             self.size[t] = r
         return r
 
-    def coq(self, t):
-        r = self.memo.get(t)
-        if r is not None:
-            return r
-        r = self._coq(t)
-        if self.tsize(t) > 12:
-            name = "sh_%d" % len(self.defs)
-            self.defs.append("Definition %s : expr := %s." % (name, r))
-            r = name
-        self.memo[t] = r
-        return r
-
-    def coq_param(self, t, sym):
-        """unshared text of a term whose radii equal to `sym` are printed as the variable r"""
+    @staticmethod
+    def children(t):
         k = t[0]
-        rr = lambda v: "r" if v == sym else str(v)
-        if k in ("Img", "MaskE", "FalseC"):
-            return k
-        if k == "Const":
-            return "(Const %d)" % self.const(t[1])
-        if k in ("Erode", "ErodeP"):
-            return "(%s %s %s)" % (k, rr(t[1]), self.coq_param(t[2], sym))
+        if k in ("Img", "MaskE", "FalseC", "Const"):
+            return ()
         if k in ("Pw", "Glob"):
-            return "(%s %d [%s])" % (k, self.sym(t[1]), "; ".join(self.coq_param(x, sym) for x in t[2]))
-        if k == "Loc":
-            return "(Loc %s %d %s)" % (rr(t[1]), self.sym(t[2]), self.coq_param(t[3], sym))
-        if k == "Select":
-            return "(Select %s %s %s)" % tuple(self.coq_param(x, sym) for x in t[1:])
-        raise Unsupported("emit(param) " + k)
+            return t[2]
+        return tuple(x for x in t[1:] if isinstance(x, tuple))
 
-    def _coq(self, t):
-        k = t[0]
-        if k in ("Img", "MaskE", "FalseC"):
-            return k
-        if k == "Const":
-            return "(Const %d)" % self.const(t[1])
-        if k in ("Erode", "ErodeP"):
-            return "(%s %d %s)" % (k, t[1], self.coq(t[2]))
-        if k in ("Pw", "Glob"):
-            return "(%s %d [%s])" % (k, self.sym(t[1]), "; ".join(self.coq(x) for x in t[2]))
-        if k == "Loc":
-            return "(Loc %d %d %s)" % (t[1], self.sym(t[2]), self.coq(t[3]))
-        if k == "Select":
-            return "(Select %s %s %s)" % (self.coq(t[1]), self.coq(t[2]), self.coq(t[3]))
-        if k == "MConv":
-            return "(MConv %d %s %s)" % (self.sym(t[1]), self.coq(t[2]), self.coq(t[3]))
-        raise Unsupported("emit " + k)
+    def dag_size(self, t):
+        seen = set()
+        stack = [t]
+        while stack:
+            x = stack.pop()
+            if x in seen:
+                continue
+            seen.add(x)
+            stack.extend(self.children(x))
+        return len(seen)
+
+    def prog(self, t, psym=None):
+        """Coq text `([d0; d1; ...], main)`; psym = (value, name): radii/structures equal to value print as name"""
+        import sys
+        sys.setrecursionlimit(max(sys.getrecursionlimit(), 20000))
+        parents = {}
+        seen = set()
+        stack = [t]
+        while stack:
+            x = stack.pop()
+            if x in seen:
+                continue
+            seen.add(x)
+            for c in self.children(x):
+                parents[c] = parents.get(c, 0) + 1
+                stack.append(c)
+        defs, memo = [], {}
+        num = (lambda v: psym[1] if (psym and v == psym[0]) else str(v))
+
+        def node(x, children_text):
+            k = x[0]
+            if k in ("Img", "MaskE", "FalseC"):
+                return k
+            if k == "Const":
+                return "(Const %d)" % self.const(x[1])
+            if k in ("Erode", "ErodeP", "ErodeS"):
+                return "(%s %s %s)" % (k, num(x[1]), children_text[0])
+            if k in ("Pw", "Glob"):
+                return "(%s %d [%s])" % (k, self.sym(x[1]), "; ".join(children_text))
+            if k in ("Loc", "LocS"):
+                return "(%s %s %d %s)" % (k, num(x[1]), self.sym(x[2]), children_text[0])
+            if k == "Select":
+                return "(Select %s %s %s)" % tuple(children_text)
+            if k == "MConv":
+                return "(MConv %d %s %s)" % (self.sym(x[1]), children_text[0], children_text[1])
+            raise Unsupported("emit " + k)
+
+        def emit(x):
+            r = memo.get(x)
+            if r is not None:
+                return r
+            if x[0] in ("Pw", "Glob", "Loc", "LocS", "MConv"):
+                self.sym(x[1] if x[0] in ("Pw", "Glob", "MConv") else x[2])      # symbol numbers in pre-order
+            text = node(x, [emit(c) for c in self.children(x)])
+            if parents.get(x, 0) > 1 and self.children(x):
+                defs.append(text)
+                text = "(Ref %d)" % (len(defs) - 1)
+            memo[x] = text
+            return text
+
+        def spine(x):
+            if x[0] == "Select":
+                m = emit(x[2])
+                return "(Select %s %s %s)" % (spine(x[1]), m, spine(x[3]))
+            return emit(x)
+
+        main = spine(t)
+        return "([%s],\n   %s)" % (";\n    ".join(defs), main)
 
 
 def show(t, limit=600):
@@ -1026,8 +1165,10 @@ def _show(t, budget):
         return k
     if k == "Const":
         return "Const<%s>" % t[1]
-    if k in ("Erode", "ErodeP"):
+    if k in ("Erode", "ErodeP", "ErodeS"):
         return "%s %d (%s)" % (k, t[1], _show(t[2], budget))
+    if k == "LocS":
+        return "LocS %d %s (%s)" % (t[1], t[2], _show(t[3], budget))
     if k in ("Pw", "Glob"):
         return "%s %s [%s]" % (k, t[1], "; ".join(_show(x, budget) for x in t[2]))
     if k == "Loc":
